@@ -428,11 +428,17 @@ func (cx *world) crashAt(logDisk *simdisk.Disk, o *offer, pt point, nseg int, x 
 	e2 := cx.insert(s, types.Blocks{x.blk})
 	v3 := cx.checkChain("crash", where+", after the offer and further block "+x.name+" were imported", im.Chain, img)
 	match := v3.headH == ref.headH
+	// the interrupted import only extended the head (no reorg): a different history from the
+	// known non-atomic head switch of a reorg, so it gets its own class
+	ext := ""
+	if !reorged {
+		ext = ":extend"
+	}
 	if !match {
-		r.Report("crash-wedged-head"+cx.fam, "%s: after importing the offer again (%s) and further block %s (%s) the head is %s(%d), the never-crashed node has %s", where, errClass(e1), x.name, errClass(e2), cx.nameOf(v3.headH), im.Chain.CurrentBlock().NumberU64(), cx.nameOf(ref.headH))
+		r.Report("crash-wedged-head"+ext+cx.fam, "%s: after importing the offer again (%s) and further block %s (%s) the head is %s(%d), the never-crashed node has %s", where, errClass(e1), x.name, errClass(e2), cx.nameOf(v3.headH), im.Chain.CurrentBlock().NumberU64(), cx.nameOf(ref.headH))
 	} else if v3.roots != ref.roots || v3.dig != ref.dig {
 		match = false
-		r.Report("crash-wedged-state"+cx.fam, "%s: same head %s as the never-crashed node but different state (roots equal=%v)", where, cx.nameOf(v3.headH), v3.roots == ref.roots)
+		r.Report("crash-wedged-state"+ext+cx.fam, "%s: same head %s as the never-crashed node but different state (roots equal=%v)", where, cx.nameOf(v3.headH), v3.roots == ref.roots)
 	}
 	r.Logf("  p=%s [%s|%s] restart head=%s rewound=%v ok=%v; again->%s head=%s ok=%v; %s->%s head=%s match=%v", pt, prevK, nextK,
 		cx.nameOf(v1.headH), rewound, v1.ok, errClass(e1), cx.nameOf(v2.headH), v2.ok, x.name, errClass(e2), cx.nameOf(v3.headH), match)
